@@ -1,5 +1,6 @@
 SPECIFICATION Spec
 CONSTANTS
   Alpha <- AllBytes
+  FirstAlpha <- Boundary
   N = 3
 INVARIANTS JudgeCompact
